@@ -1423,7 +1423,7 @@ func (e *Engine) switchTo(idx int, keepCurrent bool) {
 func (e *Engine) pickNext() int {
 	st := e.st
 	for i, g := range st.others {
-		if !g.isMain && e.runnable(g) {
+		if !g.isMain && (e.runnable(g) || (g.yielding && !g.parked)) {
 			return i
 		}
 	}
@@ -1482,14 +1482,41 @@ func (e *Engine) goroutineDone() {
 // Returns true when there is nothing left to run (the caller's instruction may complete).
 func (e *Engine) yieldMain() bool {
 	st := e.st
+	if st.curGor.skipYield {
+		// another goroutine has just yielded to main: main runs on to its next yield point
+		st.curGor.skipYield = false
+		return true
+	}
 	for i, g := range st.others {
-		if !g.isMain && e.runnable(g) {
+		if !g.isMain && (e.runnable(g) || g.yielding) && !g.parked {
 			st.curGor.yielding = true
 			e.switchTo(i, true)
 			return false
 		}
 	}
 	return true
+}
+
+// yieldOnce: a non-main goroutine lets one other goroutine (main included) run, then continues.
+// Returns true when the caller's instruction may complete.
+func (e *Engine) yieldOnce() bool {
+	st := e.st
+	if st.curGor.blockedOnce {
+		st.curGor.blockedOnce = false
+		return true
+	}
+	i := e.pickNext()
+	if i < 0 {
+		return true
+	}
+	st.curGor.blockedOnce = true
+	st.curGor.yielding = true
+	toMain := st.others[i].isMain
+	e.switchTo(i, true)
+	if toMain {
+		st.curGor.skipYield = true
+	}
+	return false
 }
 
 func (e *Engine) unfinishedOthers() int {
